@@ -54,6 +54,15 @@ def schema_list(tier):
             {"name": "x", "type": {"type": "fixed", "name": "X", "namespace": "", "size": 2}},
             {"name": "y", "type": {"type": "fixed", "name": "X", "size": 3}}, {"name": "z", "type": "X"}, {"name": "w", "type": {"type": "array", "items": "ns.X"}}]},
         {"type": "error", "name": "Err", "fields": [{"name": "m", "type": "string"}]},
+    ] + [
+        # named types whose simple name is one of the specification's non-primitive keywords: ordinary names
+        {"type": "record", "name": "Holder", "namespace": ns, "fields": [
+            {"name": "a", "type": ({"type": "record", "name": n, "fields": [{"name": "x", "type": "int"}]} if k9 % 3 == 0 else
+                                   {"type": "enum", "name": n, "symbols": ["A", "B"]} if k9 % 3 == 1 else {"type": "fixed", "name": n, "size": 2})},
+            {"name": "b", "type": n}, {"name": "c", "type": {"type": "array", "items": n}}, {"name": "d", "type": ["null", ns + "." + n]}]}
+        for k9, (n, ns) in enumerate([("request", "com.api"), ("error", "com.api"), ("record", "n"), ("enum", "n"), ("fixed", "n.m"), ("array", "n"),
+                                     ("map", "n"), ("union", "n"), ("error_union", "n")])
+    ] + [
         {"type": "record", "name": "L3", "namespace": "p", "fields": [{"name": "a", "type": {"type": "record", "name": "L2", "fields": [
             {"name": "b", "type": {"type": "record", "name": "L1", "fields": [{"name": "e", "type": {"type": "enum", "name": "Deep", "symbols": ["Q"]}}]}}]}},
             {"name": "d", "type": "Deep"}, {"name": "d2", "type": "p.Deep"}]},
@@ -216,6 +225,15 @@ def check_one(fa, res, original, variant, label, want, seen):
     assert ref_variant == want, ("rewrite is not cosmetic for the reference", label, variant)
     if got != want:
         res.add(Violation("c13.canon", f"canonical-form-differs:{label}", f"canonical form {got!r} != specification's {want!r} | rewrite {label} of {short(original, 300)}", info))
+        return
+    # the same schema handed over pre-parsed; the parsed object is short-lived on purpose (a result remembered
+    # per object identity must not survive the object)
+    try:
+        got_p = fa.schema.to_parsing_canonical_form(fa.parse_schema(copy.deepcopy(variant)))
+    except Exception as e:
+        got_p = f"raised {type(e).__name__}: {e}"
+    if got_p != want:
+        res.add(Violation("c13.canon", f"canonical-form-differs:pre-parsed:{label}", f"canonical form of the pre-parsed schema {got_p!r} != specification's {want!r} | rewrite {label} of {short(original, 300)}", info))
         return
     if spec_form_is_lossy(want):
         res.stats["schemas_with_lossy_spec_form_skipped_for_fixpoint"] += 1
